@@ -25,6 +25,7 @@ import numpy as np
 from . import common as C
 from . import geomgen as G
 from . import c16_util as U
+from . import c16_mixed as M
 
 ANCHOR_FILES = ['spatialpandas/geometry/base.py', 'spatialpandas/geometry/baselist.py',
                 'spatialpandas/geometry/basefixed.py']
@@ -42,6 +43,8 @@ IMPORTS = 'Model.Num Model.Arrow Model.Derive'
 CASE_TY = 'list (option elem) * repr * list obs'
 RES_TY = 'list Z'
 FN = 'check_case'
+
+EXTRAS_P = 0.12          # share of the steps after which the derived-vs-fresh extras run
 
 CODES = {1: 'error-class', 2: 'not-wf', 3: 'null-spans-values', 4: 'decode-differs',
          5: 'isna-differs', 8: 'int-probe-differs'}
@@ -66,7 +69,7 @@ def _probe_ints(rng, n):
     return sorted(c)
 
 
-def run_history(kind, subtype, els, steps, rng, quant=True, probes=True):
+def run_history(kind, subtype, els, steps, rng, quant=True, probes=True, extras=None):
     """apply the history to the real array; build the Coq case; do the Python-side checks"""
     out = Outcome()
     try:
@@ -149,10 +152,21 @@ def run_history(kind, subtype, els, steps, rng, quant=True, probes=True):
                            f'{kind}: the index array passed to {st["op"]} ({st.get("form")}) was '
                            f'modified by the call', k)
         if out.py_fail is None:
-            f = python_side(kind, subtype, els, arr, orig, quant, lambda: _src_q(kind, els, subtype),
-                            out, wrap=quant and rng.random() < 0.12, page_sizes=page_sizes,
-                            keys=[U.CX_KEYS[0]] + rng.sample(U.CX_KEYS[1:], 3),
-                            query_own=(k == len(steps) - 1 or rng.random() < 0.3))
+            kw = dict(wrap=quant and rng.random() < 0.12, page_sizes=page_sizes,
+                      keys=[U.CX_KEYS[0]] + rng.sample(U.CX_KEYS[1:], 3),
+                      query_own=(k == len(steps) - 1 or rng.random() < 0.3),
+                      extra_rng=rng if quant and (extras or (extras is None and rng.random() < EXTRAS_P))
+                      else None)
+            try:
+                f = python_side(kind, subtype, els, arr, orig, quant,
+                                lambda: _src_q(kind, els, subtype), out, **kw)
+            except Exception:  # noqa: BLE001
+                if not M.NOJIT:
+                    raise
+                # NUMBA_DISABLE_JIT (line-coverage runs): the un-jitted kernels are not the code
+                # under test (numpy uint32 scalar arithmetic wraps where numba's does not)
+                NOJIT_SKIPPED[0] += 1
+                f = None
             if f is not None:
                 out.py_fail = (f[0], f'{kind} after step {k} {st}: {f[1]}', k)
     if coq_ok:
@@ -162,6 +176,7 @@ def run_history(kind, subtype, els, steps, rng, quant=True, probes=True):
 
 
 _SRC_CACHE = {}
+NOJIT_SKIPPED = [0]
 
 
 def _src_q(kind, els, subtype):
@@ -174,7 +189,7 @@ def _src_q(kind, els, subtype):
 
 
 def python_side(kind, subtype, els, arr, orig, quant, src_q, out=None, wrap=False,
-                page_sizes=(), query_own=False, keys=None):
+                page_sizes=(), query_own=False, keys=None, extra_rng=None):
     """None when everything agrees, else (signature, what)"""
     want = [None if o is None else els[o] for o in orig]
     aei = any(U.is_aei(kind, e) for e in want)
@@ -205,10 +220,23 @@ def python_side(kind, subtype, els, arr, orig, quant, src_q, out=None, wrap=Fals
     try:
         qd = U.quantities(kind, arr)
     except Exception as e:  # noqa: BLE001
+        if M.NOJIT:
+            NOJIT_SKIPPED[0] += 1
+            return None
         return (f'quantity-raises:{type(e).__name__}',
                 f'a derived quantity raised {type(e).__name__}: {str(e)[:200]}')
-    qf = U.quantities(kind, fresh)
-    qs = src_q()
+    try:
+        qf = U.quantities(kind, fresh)
+        qs = src_q()
+    except Exception as e:  # noqa: BLE001
+        if M.NOJIT:
+            # un-jitted kernels are not the code under test: numpy's uint32 scalar arithmetic
+            # wraps where numba's int64 does not (offsets1[j + 1] - 2 with an empty first ring)
+            NOJIT_SKIPPED[0] += 1
+            return None
+        return (f'quantity-raises-on-fresh:{type(e).__name__}',
+                f'a quantity of a FRESH array of the elements {want!r} raised '
+                f'{type(e).__name__}: {str(e)[:200]}')
     for name, (vd, elementwise) in qd.items():
         if not U.same_array(vd, qf[name][0]):
             return (f'quantity-differs:{name}',
@@ -231,6 +259,8 @@ def python_side(kind, subtype, els, arr, orig, quant, src_q, out=None, wrap=Fals
                 out.aei_hit = ('arr == other', type(e).__name__, str(e)[:120])
             else:
                 return ('eq-raises', f'arr == fresh raised {type(e).__name__}: {e}')
+    if extra_rng is not None and not aei:
+        return M.extras(kind, arr, fresh, want, extra_rng)
     return None
 
 
@@ -435,7 +465,7 @@ def describe(kind, steps, out, codes):
 
 def fails(kind, subtype, els, steps, rng, need_coq=True):
     """(signature, what) when the history still shows a difference, else None"""
-    out = run_history(kind, subtype, els, steps, rng)
+    out = run_history(kind, subtype, els, steps, rng, extras=True)
     if out.py_fail is not None:
         return out.py_fail[:2]
     if out.case is None or not need_coq:
@@ -523,7 +553,21 @@ def run(rep):
                 'concat (rotate, self+self, pieces, pd.concat), copy / pickle / Series / DataFrame / '
                 'parquet / iteration round trips, arr[i], ~12% invalid requests.  A history is non-trivial when '
                 'at least one step returned a non-empty array; distinct = distinct (kind, subtype, '
-                'elements, steps)')
+                'elements, steps); (c) after ~12% of the steps the derived-vs-fresh extras: == with a '
+                'shorter / longer array, a scalar, None, a foreign object; _from_sequence of the array, '
+                'of its list, of one scalar; pd.factorize; argsort; Series.sort_values; scalar-level '
+                'length / area / intersects_bounds / len of arr[i]; rings through buffer_values / '
+                'buffer_inner_offsets -- value bit for bit or exception class equal to a fresh '
+                'array\'s; (d) several sources (harness/c16_mixed.py): 2-3 arrays (fresh / sliced / '
+                'taken / concatenated / pickled) of equal dtype, of same-width subtypes (int64/float64/'
+                'uint64, int32/float32/uint32, int16/uint16, int8/uint8), of different-width subtypes, '
+                'of different kinds (sharing an arrow storage type or not), cut into slices with any '
+                'step and brought together by pd.concat of GeoSeries (with / without ignore_index), '
+                'DataFrames, GeoDataFrames, frames with unequal columns, _concat_same_type when the '
+                'dtypes are equal; then 0-3 steps on the result (iloc slice / take / mask / reindex '
+                'with fill / copy / pickle / re-wrapping the scalars in a GeoSeries or array); kind '
+                'and coordinates (multiples of 1/4, exact in every subtype) of every element compared '
+                'with Model/DeriveMulti.v run_multi inside the kernel and in Python')
     nrand = 1100 if tier == 'quick' else 20000
     hist = []
     for kind, st, els, steps, quant in enumerated(tier, rng):
@@ -616,6 +660,12 @@ def run(rep):
         what = (f'{metas[i]["kind"]}: the kernel-evaluated model disagrees at position {pos} '
                 f'(0 = source array, k = after step k): {CODES.get(first, first)}; codes {codes}')
         reported.setdefault(sig, (metas[i], what))
+    # ---- several sources brought together (harness/c16_mixed.py)
+    t_m = time.time()
+    M.run(rep, tier)
+    rep.extra['seconds_multi_source'] = round(time.time() - t_m, 1)
+    if NOJIT_SKIPPED[0]:
+        rep.count('internal:nojit-quantity-raised', NOJIT_SKIPPED[0])
     for what_, cnt in U.UNAVAILABLE.items():
         rep.count('internal-unavailable:' + what_, cnt)
     rep.extra['histories_kernel_checked'] = len(cases)
@@ -648,10 +698,12 @@ def _un(e):
 
 def replay(rep, rp):
     _single_thread()
+    if 'mixed' in rp:
+        return M.replay(rep, rp)
     kind, st = rp['kind'], rp['subtype']
     els = _un(rp['elements'])
     steps = rp['steps']
-    out = run_history(kind, st, els, steps, rep.rng)
+    out = run_history(kind, st, els, steps, rep.rng, extras=True)
     print('steps :', steps)
     print('trace :', out.trace)
     ok = True
